@@ -8,24 +8,30 @@
 (*   req_start id / req_end id product cluster status                                   *)
 EXTENDS Integers, Sequences, FiniteSets, TLC, Json
 Tr == ndJsonDeserialize("trace.ndjson")
-VARIABLES l, may, inflight, bad
+VARIABLES l, may, inflight, swaps, bad
 \* may: generations that may be the published one now; inflight: [id -> generations possibly
-\* published at some instant of the request]
-tvars == <<l, may, inflight, bad>>
+\* published at some instant of the request]; swaps: [generation whose reload is running ->
+\* generations whose reload RETURNED while it was running] — concurrent reloads may publish in
+\* any order, so when the reload of h returns the published generation is h, one whose reload
+\* is still running, or one whose reload returned during h's (it may have swapped after h).
+tvars == <<l, may, inflight, swaps, bad>>
 Ev == Tr[l]
 Mark(why) == bad' = bad \cup {[cid |-> Ev.cid, l |-> l, why |-> why]}
 ProductOf(g) == IF g % 2 = 0 THEN "pa" ELSE "pb"
 Fold(f, m) == [i \in DOMAIN f |-> f[i] \cup m]
 
-TInit == l = 1 /\ may = {0} /\ inflight = <<>> /\ bad = {}
-TNew == Ev.ev = "new" /\ may' = {Ev.g} /\ inflight' = <<>> /\ UNCHANGED bad
+TInit == l = 1 /\ may = {0} /\ inflight = <<>> /\ swaps = <<>> /\ bad = {}
+TNew == Ev.ev = "new" /\ may' = {Ev.g} /\ inflight' = <<>> /\ swaps' = <<>> /\ UNCHANGED bad
 TSwapStart == /\ Ev.ev = "swap_start" /\ may' = may \cup {Ev.g}
+              /\ swaps' = (Ev.g :> {}) @@ swaps
               /\ inflight' = Fold(inflight, may') /\ UNCHANGED bad
-\* after a reload has returned its generation (or a later one) is published
-TSwapEnd == /\ Ev.ev = "swap_end" /\ may' = {g \in may : g >= Ev.g}
+TSwapEnd == /\ Ev.ev = "swap_end"
+            /\ LET running == DOMAIN swaps \ {Ev.g} IN
+                 /\ may' = {Ev.g} \cup running \cup swaps[Ev.g]
+                 /\ swaps' = [x \in running |-> swaps[x] \cup {Ev.g}]
             /\ inflight' = Fold(inflight, may') /\ UNCHANGED bad
 TReqStart == /\ Ev.ev = "req_start" /\ inflight' = (Ev.id :> may) @@ inflight
-             /\ UNCHANGED <<may, bad>>
+             /\ UNCHANGED <<may, swaps, bad>>
 TReqEnd == /\ Ev.ev = "req_end"
            /\ LET gens == inflight[Ev.id] IN
                 IF Ev.status = 0 - 1 THEN Mark("panic-or-no-response")
@@ -34,9 +40,15 @@ TReqEnd == /\ Ev.ev = "req_end"
                 ELSE IF ~(\E g \in gens : ProductOf(g) = Ev.product) THEN Mark("GenerationNeverCurrent")
                 ELSE UNCHANGED bad
            /\ inflight' = [x \in DOMAIN inflight \ {Ev.id} |-> inflight[x]]
-           /\ UNCHANGED may
-TEnd == Ev.ev = "end" /\ (IF Ev.panic THEN Mark("panic") ELSE UNCHANGED bad) /\ UNCHANGED <<may, inflight>>
-TNext == l <= Len(Tr) /\ l' = l + 1 /\ (TNew \/ TSwapStart \/ TSwapEnd \/ TReqStart \/ TReqEnd \/ TEnd)
+           /\ UNCHANGED <<may, swaps>>
+\* request to the cluster that balancer-table reloads add and remove: served by the complete new
+\* table (200) or refused by the old one (no balancer) — never a half-loaded balancer
+TExEnd == /\ Ev.ev = "ex_end"
+          /\ (IF Ev.ok THEN UNCHANGED bad ELSE Mark("HalfLoadedBalancerTable"))
+          /\ inflight' = [x \in DOMAIN inflight \ {Ev.id} |-> inflight[x]]
+          /\ UNCHANGED <<may, swaps>>
+TEnd == Ev.ev = "end" /\ (IF Ev.panic THEN Mark("panic") ELSE UNCHANGED bad) /\ UNCHANGED <<may, inflight, swaps>>
+TNext == l <= Len(Tr) /\ l' = l + 1 /\ (TNew \/ TSwapStart \/ TSwapEnd \/ TReqStart \/ TReqEnd \/ TExEnd \/ TEnd)
 Report == (l = Len(Tr) + 1) => PrintT(ToJson([done |-> TRUE, consumed |-> l - 1, bad |-> bad]))
 Accepted == TLCGet("stats").diameter - 1 = Len(Tr)
 =======================================================================
